@@ -4,14 +4,14 @@ families of C01-C05 and C12 (and one concurrent family) with the virtual clock a
 import itertools, random
 
 DIMS = [
- ('env:MIMALLOC_PURGE_DELAY', ['-1', '0', '1', '10']),
+ ('env:MIMALLOC_PURGE_DELAY', ['0', '1', '10']),
  ('env:MIMALLOC_PURGE_DECOMMITS', ['0', '1']),
  ('env:MIMALLOC_PURGE_EXTEND_DELAY', ['0', '1', '5']),
  ('env:MIMALLOC_ARENA_PURGE_MULT', ['1', '10']),
  ('env:MIMALLOC_EAGER_COMMIT', ['0', '1']),
  ('env:MIMALLOC_EAGER_COMMIT_DELAY', ['0', '1', '4']),
  ('env:MIMALLOC_ARENA_EAGER_COMMIT', ['0', '1', '2']),
- ('env:MIMALLOC_ARENA_RESERVE', ['0', '64MiB', '1GiB']),
+ ('env:MIMALLOC_ARENA_RESERVE', ['64MiB', '1GiB']),
  ('env:MIMALLOC_ABANDONED_RECLAIM_ON_FREE', ['0', '1']),
  ('env:MIMALLOC_ABANDONED_PAGE_PURGE', ['0', '1']),
  ('env:MIMALLOC_TARGET_SEGMENTS_PER_THREAD', ['0', '3']),
@@ -50,13 +50,17 @@ def pairwise_rows(seed=12345):
     return rows
 
 # An option that switches a whole mechanism off masks every other arena option in its row; it is kept out of the
-# covering array and set in every fourth row instead, so that three quarters of the rows exercise the arenas.
-MASKING = [('env:MIMALLOC_DISALLOW_ARENA_ALLOC', lambda ri: '1' if ri % 4 == 3 else '0')]
+# covering array and set in every fourth row instead, so that most rows exercise arenas and purging (three of eight rows have one mechanism switched off).
+MASKING = [('env:MIMALLOC_DISALLOW_ARENA_ALLOC', lambda ri: '1' if ri % 8 == 3 else '0'),     # no arenas at all
+           ('env:MIMALLOC_ARENA_RESERVE', lambda ri: '0' if ri % 8 == 7 else None),             # no arenas reserved on demand
+           ('env:MIMALLOC_PURGE_DELAY', lambda ri: '-1' if ri % 8 == 5 else None)]              # no purging
 
 def row_args(row, ri=0):
     a = ['auto_advance_every=7']
-    for name, f in MASKING: a.append('%s=%s' % (name, f(ri)))
     for (name, vals), k in zip(DIMS, row): a.append('%s=%s' % (name, vals[k]))
+    for name, f in MASKING:        # later arguments override earlier ones
+        v = f(ri)
+        if v is not None: a.append('%s=%s' % (name, v))
     return a
 
 def jobgen(ctx):
@@ -77,4 +81,17 @@ def jobgen(ctx):
             for rep in range(unit * weight[fam]):
                 b = builds[k % 3]; k += 1
                 sd = ctx['seed_of'](ctx['seed'], 'c13/' + fam, ri * 1000 + rep)
+                yield (b, ['--family', fam, '--seed', str(sd)] + ra, fam, sd)
+    # beyond pairs: rows with every dimension drawn at random (a different set for every VERIF_SEED), one run per row and family
+    # (twice for the concurrent families); interactions of three and more options are sampled this way, not covered
+    n_rand = 30 if tier == 'quick' else 1500
+    rnd = random.Random(ctx['seed'] * 7919 + 13)
+    cov['random_rows'] = n_rand
+    for rj in range(n_rand):
+        row = [rnd.randrange(len(vals)) for (_, vals) in DIMS]
+        ra = row_args(row, rnd.randrange(8))
+        for fam in FAMILIES:
+            for rep in range(weight[fam]):
+                b = builds[k % 3]; k += 1
+                sd = ctx['seed_of'](ctx['seed'], 'c13r/' + fam, rj * 10 + rep)
                 yield (b, ['--family', fam, '--seed', str(sd)] + ra, fam, sd)
